@@ -77,11 +77,20 @@ def run(p, report, tier):
             continue
         preds = prediction_roots(f.node)
         edges = dep_edges(f.node.body)
+        # label encoders by role: locals constructed as (Ext)LabelEncoder, and the classifiers' self._le
+        encoders = {"self._le"}
+        for n in ast.walk(f.node):
+            if isinstance(n, ast.Assign) and isinstance(n.value, ast.Call) and c01.callname(n.value) in (
+                    "ExtLabelEncoder", "LabelEncoder"):
+                encoders |= {ast.unparse(t) for t in n.targets}
+
+        def _is_encoder_call(call):
+            return isinstance(call.func, ast.Attribute) and ast.unparse(call.func.value) in encoders
         # names holding label-encoder output
         enc = set()
         for n in ast.walk(f.node):
             if isinstance(n, ast.Assign) and isinstance(n.value, ast.Call) and c01.callname(n.value) in (
-                    "fit_transform", "transform") and "le" in ast.unparse(n.value.func).lower():
+                    "fit_transform", "transform") and _is_encoder_call(n.value):
                 enc |= {t.id for t in n.targets if isinstance(t, ast.Name)}
             if isinstance(n, ast.Assign) and isinstance(n.value, ast.Call) and c01.callname(n.value) == "_validate_data" \
                     and f.cls is not None and p.is_subclass(f.cls, "SkactivemlClassifier") \
@@ -93,7 +102,7 @@ def run(p, report, tier):
         for n in ast.walk(f.node):
             if isinstance(n, ast.Assign):
                 is_enc = isinstance(n.value, ast.Call) and (
-                    (c01.callname(n.value) in ("fit_transform", "transform") and "le" in ast.unparse(n.value.func).lower())
+                    (c01.callname(n.value) in ("fit_transform", "transform") and _is_encoder_call(n.value))
                     or (c01.callname(n.value) == "_validate_data" and f.cls is not None
                         and p.is_subclass(f.cls, "SkactivemlClassifier")))
                 for t in n.targets:
